@@ -62,6 +62,12 @@ func c10Trees() (src, dst tm.Tree) {
 			dst = append(dst, c10Entry("wrongtype-"+n, other, 3)...)
 		}
 	}
+	// names that sort between a directory and its contents ("dir" < "dir-2" < "dir.old" < "dir/inner"), next to
+	// directories that are missing or have a non-directory in their place at the destination, and deeper levels below them
+	src = append(src, tm.File("wrongtype-dir.old", []byte("sibling"), 0o644, tm.Past), tm.D("wrongtype-dir-2", 0o755, tm.Past), tm.File("wrongtype-dir-2/inner", []byte("i2"), 0o644, tm.Past),
+		tm.File("missing-dir.old", []byte("sibling"), 0o644, tm.Past), tm.D("missing-dir-2", 0o755, tm.Past),
+		tm.D("wrongtype-dir/sub", 0o755, tm.Past), tm.File("wrongtype-dir/sub/deep", []byte("deep"), 0o644, tm.Past), tm.File("wrongtype-dir/sub.x", []byte("sx"), 0o644, tm.Past),
+		tm.D("missing-dir/sub", 0o755, tm.Past), tm.File("missing-dir/sub/deep", []byte("deep"), 0o644, tm.Past))
 	// up to date by the quick check (same size and mtime) but other permissions / owner:
 	// a real run adjusts them, a dry run must not
 	m := c10Entry("meta-reg", tm.Reg, 1)[0]
